@@ -66,6 +66,7 @@ def run(ctx):
     ctx.rule("registered/single-writer", "the registered attribute is written at exactly one call site and by no patch dictionary")
     ctx.rule("rdac/own-key", "a datagram changes only the sender's entry of the step dictionary")
     ctx.rule("rdac/guarded-advance", "the step advances, and datagrams are sent, only on a path where the datagram matched a response constant; a non-matching datagram changes nothing")
+    ctx.rule("rdac/expected-response", "a stored step advances only on the one response expected for it (leading octets and next step pinned by value), never on the response of another step")
     ctx.rule("rdac/reset", "a one-byte datagram in any step but 14 restarts the sender at step 1 with exactly the step-0 request; in step 14 the step never changes")
     ctx.rule("rdac/handlers-exist", "every step value that can be stored has a handler")
     ctx.rule("rdac/completion-once", "the completion callback runs exactly on the 13 -> 14 transition, with the sender's repeater id, and on no other path")
@@ -77,6 +78,7 @@ def run(ctx):
     ctx.require("gate/reject-unregistered", 6)
     ctx.require("gate/serve-registered", 3)
     ctx.require("rdac/guarded-advance", 13)
+    ctx.require("rdac/expected-response", 12)
 
 
 def p2p(ctx):
@@ -171,6 +173,11 @@ def p2p(ctx):
                     ctx.sample({"scenario": key, "sends_to": [str(dest(e)) for e in sd]})
 
 
+# step -> (next step, leading octets of the one response that advances it), as on today's tree
+RDAC_EXPECTED = {1: (2, "7e0400fd"), 2: (3, "7e040010"), 3: (4, "7e040000"), 4: (5, "7e040000"), 5: (6, "7e040010"), 6: (7, "7e040000"), 7: (8, "7e040010"),
+                 8: (10, "7e040010"), 10: (11, "7e040000"), 11: (12, "7e040010"), 12: (13, "7e040000"), 13: (14, "7e0400fa")}
+
+
 def rdac(ctx):
     repo = ctx.repo
     rci = repo.cls(RMOD, "RDACDatagramProtocol")
@@ -222,6 +229,7 @@ def rdac(ctx):
                 if s is not None:
                     h.attrs["step"][A[0]] = s
                 data = sym_bytes(I, "d", 1) if shape == "reset" else sym_bytes(I, "d", 240)
+                st.__dict__["rdac_data"] = data
                 del st.effects[:]
                 I.call(dr, [h, data, A], {})
                 return h, storage
@@ -266,6 +274,14 @@ def rdac(ctx):
                     ctx.ob("rdac/guarded-advance", key + " | no match", ok, f"datagram matched no response constant but step {s0} -> {s1}, {len(sd)} datagram(s), {len(cbs)} callback(s)", dr.loc)
                 else:
                     n_adv += 1
+                    # the response EXPECTED for the stored step (pinned by value from today's tree, each confirmed by reading the
+                    # handler): a step that also advances on another step's response (a 'lost datagram' shortcut) skips a stage
+                    pre = fixed_prefix(I, data_of(st)).hex()
+                    exp = RDAC_EXPECTED.get(s0)
+                    if exp is None:
+                        raise AnalysisError(f"{key}: step {s0} advances on a datagram, but the pinned table of expected responses has no entry for it")
+                    ctx.ob("rdac/expected-response", key + f" | {pre or 'no fixed prefix'} -> {s1}", (s1, pre) == exp,
+                           f"step {s0} advances to {s1} on a datagram starting {pre or '?'}; the response expected in step {s0} starts {exp[1]} and leads to step {exp[0]}", dr.loc)
                     ok = changed and s1 in steps and s1 > s0 and all(dest(e) == A for e in sd)
                     ctx.ob("rdac/guarded-advance", key + " | match", ok, f"matching datagram: step {s0} -> {s1}, {len(sd)} datagram(s) to {sorted(set(map(str, map(dest, sd))))}", dr.loc)
                     want_cb = 1 if (s0 == 13 and s1 == 14) else 0
@@ -277,6 +293,22 @@ def rdac(ctx):
                     ctx.ob("rdac/completion-once", key, cb_ok, f"{len(cbs)} callback(s) on {s0} -> {s1} (expected {want_cb})", dr.loc)
                 if ok_own and shape == "data" and matched:
                     ctx.ob("rdac/own-key", key, True, "other peer's step untouched", dr.loc)
+
+
+def data_of(st):
+    return st.__dict__["rdac_data"]
+
+
+def fixed_prefix(I, data) -> bytes:
+    """the leading octets of the datagram that the path's conditions fix to constants"""
+    out = bytearray()
+    bits = I.simp_bits(data.items)
+    for i in range(0, len(bits), 8):
+        o = bits[i:i + 8]
+        if not all(isinstance(b, F) and b.is_const for b in o):
+            break
+        out.append(int("".join(str(b.c) for b in o), 2))
+    return bytes(out)
 
 
 def constrains_data(I, st, name="d") -> bool:
